@@ -8,3 +8,7 @@ import Norad.Props.C11
 #print axioms C11.parseOutline_isSome_iff
 #print axioms C11.v2_contours_unchanged
 #print axioms C11.v1_single_named_move_becomes_anchor
+#print axioms C11.source_addPoint_eq_model
+#print axioms C11.source_wrap_eq_model
+#print axioms C11.source_endPath_eq_model
+#print axioms C11.source_accepts_iff_legal
